@@ -428,7 +428,7 @@ class C13(Check):
             log.append((stepno, opname, len(sessions)))
 
         # feed-by-hand equals parse(): the tokens the root's own lexer produces, fed into a text-less session
-        if out.violation is None and plan['text'] and plan['root'] == 'interactive':
+        if out.violation is None and plan['root'] == 'interactive':
             v = self._feed_vs_parse(p, e, plan)
             out.count('op:feed-vs-parse')
             if v:
